@@ -1536,7 +1536,7 @@ func main() {
 		},
 		Cases: func(tier string) int {
 			if tier == "thorough" {
-				return 4000
+				return 2400
 			}
 			return 240
 		},
